@@ -5,6 +5,7 @@
 
 #include <string.h>
 #include <float.h>
+#include <math.h>
 
 #include <sys/uio.h>
 
@@ -79,6 +80,8 @@ extern int mpt_data_convert_float64(const double *from, MPT_TYPE(type) type, voi
 	}
 	switch (type) {
 		case 'f':
+			/* finite value outside of target range */
+			if (isinf((float) val) && !isinf(val)) return MPT_ERROR(BadValue);
 			if (dest) *((float *) dest) = val;
 			return sizeof(float);
 		case 'd':
@@ -124,9 +127,13 @@ extern int mpt_data_convert_exflt(const long double *from, MPT_TYPE(type) type, 
 	}
 	switch (type) {
 		case 'f':
+			/* finite value outside of target range */
+			if (isinf((float) val) && !isinf(val)) return MPT_ERROR(BadValue);
 			if (dest) *((float *) dest) = val;
 			return sizeof(float);
 		case 'd':
+			/* finite value outside of target range */
+			if (isinf((double) val) && !isinf(val)) return MPT_ERROR(BadValue);
 			if (dest) *((double *) dest) = val;
 			return sizeof(double);
 		case 'e':
